@@ -53,7 +53,7 @@ def run_case(case):
     names = G.all_names(words, 4)
     matching = [n for n in names if L.matches_any(sch, n, fns, ex)]
     others = [n for i, n in enumerate(names) if i % 97 == case.get('salt', 0) % 97][:6]
-    pool = matching[:90] + others
+    pool = matching[:64] + others
     digest = T.enc_tlv(1, b'\x09' * 32)
     yes = no = 0
     for i, pkt in enumerate(pool):
@@ -111,5 +111,5 @@ def _case():
 
 
 SUBCHECKS = {
-    'schemas': SubCheck(run_case, strategy=lambda tier: _case(), examples={'quick': 500, 'thorough': 12000}),
+    'schemas': SubCheck(run_case, strategy=lambda tier: _case(), examples={'quick': 400, 'thorough': 12000}),
 }
